@@ -1,6 +1,6 @@
 /* nss_shim.c — substitutes the group and user databases of the daemon under test.
    Linked with -Wl,--wrap=getgrent_r,--wrap=setgrent,--wrap=endgrent,--wrap=getpwnam_r.
-   The database is the text file named by VERIF_NSS_DB, re-read at every setgrent():
+   The database is the text file named by VERIF_NSS_DB; its group part is read when the group stream is opened (see below):
      g <gid> <name>[,<name>...]      (a group entry; "-" for no members)
      u <name> <uid> [<n>]            (a passwd entry; first match wins; n = length of its GECOS field, so that a
                                       large n makes the entry exceed the caller's buffer: ERANGE until it has grown)
@@ -20,27 +20,45 @@
 static char **g_lines; static int g_n, g_pos;
 static char **u_lines; static int u_n;
 
-static void load(void) {
-    const char *p = getenv("VERIF_NSS_DB"); FILE *f; char buf[1 << 16]; int i;
+/* The group database is a STREAM, as in glibc's `files` backend: setgrent() opens the file only when the stream is not
+   open — otherwise it merely rewinds the stream it has, i.e. the file it opened then, even if that file has meanwhile
+   been replaced by rename() (vipw, gpasswd, usermod, sed -i) —, endgrent() closes it, and getgrent_r() without a
+   setgrent() opens it.  A caller that wants to see the current file must therefore bracket every scan by
+   setgrent() ... endgrent().  The user database has no stream: getpwnam_r looks at the current file (re-read at every
+   setgrent() call and on first use). */
+static int g_open;
+static void close_groups(void) {
+    int i;
     for (i = 0; i < g_n; i++) free(g_lines[i]);
-    for (i = 0; i < u_n; i++) free(u_lines[i]);
-    free(g_lines); free(u_lines); g_lines = u_lines = NULL; g_n = u_n = 0;
-    if (!p || !(f = fopen(p, "r"))) return;
-    g_lines = calloc(MAXL, sizeof(char *)); u_lines = calloc(MAXL, sizeof(char *));
+    free(g_lines); g_lines = NULL; g_n = 0; g_open = 0;
+}
+static void load_file(int want_groups, int want_users) {
+    const char *p = getenv("VERIF_NSS_DB"); FILE *f; char buf[1 << 16]; int i;
+    if (want_groups) close_groups();
+    if (want_users) { for (i = 0; i < u_n; i++) free(u_lines[i]); free(u_lines); u_lines = NULL; u_n = 0; }
+    if (!p || !(f = fopen(p, "r"))) return;          /* e.g. EMFILE: no stream; getgrent_r then reports ENOENT, as glibc does */
+    if (want_groups) { g_lines = calloc(MAXL, sizeof(char *)); g_open = 1; }
+    if (want_users) u_lines = calloc(MAXL, sizeof(char *));
     while (fgets(buf, sizeof buf, f)) {
         buf[strcspn(buf, "\n")] = 0;
-        if (buf[0] == 'g' && g_n < MAXL) g_lines[g_n++] = strdup(buf + 2);
-        else if (buf[0] == 'u' && u_n < MAXL) u_lines[u_n++] = strdup(buf + 2);
+        if (want_groups && buf[0] == 'g' && g_n < MAXL) g_lines[g_n++] = strdup(buf + 2);
+        else if (want_users && buf[0] == 'u' && u_n < MAXL) u_lines[u_n++] = strdup(buf + 2);
     }
     fclose(f);
 }
+static void load(void) { load_file(0, 1); }          /* user database only (getpwnam_r on first use) */
 /* glibc serialises setgrent/getgrent_r/endgrent on ONE process-wide stream with a lock held for the whole call (the slow
    directory lookup included): two threads enumerating at the same time share the stream's position, each getting some of the
    entries */
 static pthread_mutex_t g_lock = PTHREAD_MUTEX_INITIALIZER;
 static int getgrent_locked(struct group *gr, char *buf, size_t buflen, struct group **res);
-void __wrap_setgrent(void) { pthread_mutex_lock(&g_lock); load(); g_pos = 0; pthread_mutex_unlock(&g_lock); }
-void __wrap_endgrent(void) { pthread_mutex_lock(&g_lock); g_pos = 0; pthread_mutex_unlock(&g_lock); }
+void __wrap_setgrent(void) {
+    pthread_mutex_lock(&g_lock);
+    load_file(!g_open, 1);                           /* stream already open: rewound, NOT re-opened */
+    g_pos = 0;
+    pthread_mutex_unlock(&g_lock);
+}
+void __wrap_endgrent(void) { pthread_mutex_lock(&g_lock); close_groups(); g_pos = 0; pthread_mutex_unlock(&g_lock); }
 
 int __wrap_getgrent_r(struct group *gr, char *buf, size_t buflen, struct group **res) {
     int rv;
@@ -55,6 +73,7 @@ static int getgrent_locked(struct group *gr, char *buf, size_t buflen, struct gr
     *res = NULL;
     { const char *f = getenv("VERIF_NSS_FAIL"); if (f && access(f, F_OK) == 0) return EIO; }   /* scan fails */
     { const char *d = getenv("VERIF_NSS_DELAY_US"); if (d) usleep((useconds_t) atoi(d)); }
+    if (!g_open) { load_file(1, 0); g_pos = 0; }      /* enumeration without setgrent(): the stream is opened now */
     if (!g_lines || g_pos >= g_n) return ENOENT;
     line = g_lines[g_pos];
     sp = strchr(line, ' ');
